@@ -865,6 +865,128 @@ theorem dvTcOrd_declared (skipNames forbid : Bool) (fs : List Field) :
     unfold dvTcOrd
     simp [ih]
 
+/-! ### `#[derive(SerializeRow)]`, by name (no `flatten`): value at the column's position, exact acceptance -/
+
+private def rowErr : Err → Err
+  | .svFieldSerFailed => .srColumnSerFailed
+  | .svNoSuchField => .srValueMissingForColumn
+  | e => e
+
+/-- the row loop is the UDT loop with every excess column forbidden (and its own error names) -/
+private theorem srLoop_eq (db : List Col) : ∀ (es : List Entry) (rem : Nat),
+    srLoop db es rem = (match svLoop true db es rem 0 with
+      | .ok r => .ok r
+      | .error x => .error (rowErr x)) := by
+  induction db with
+  | nil => intro es rem; rfl
+  | cons c cs ih =>
+    intro es rem
+    unfold srLoop svLoop
+    cases lookupE c.name es with
+    | none => rfl
+    | some e =>
+      simp only []
+      cases serVal e.f e.v c.ty with
+      | none => rfl
+      | some cell =>
+        simp only [ih]
+        cases svLoop true cs (markE c.name es) (decr e.visited rem) 0 with
+        | error x => rfl
+        | ok r => obtain ⟨a, b, c'⟩ := r; simp
+
+private theorem emit_forbid (look : String → Option (Field × Val)) (db : List Col)
+    (h : ∀ c ∈ db, (look c.name).isSome = true) : emit look db 0 = db.map (specCell look) := by
+  induction db with
+  | nil => rfl
+  | cons c cs ih =>
+    unfold emit
+    rw [if_pos (h c (List.mem_cons_self ..)), ih (fun c' hc' => h c' (List.mem_cons_of_mem _ hc'))]
+    rfl
+
+/-- by-name row serialization succeeds exactly when every column is bound to a field whose value fits it and
+every non-skipped field has its column — in any column order; the cells are then, position by position, the
+values of the like-named fields. -/
+theorem serRowByName_iff (fvs : List (Field × Val)) (db : List Col) (hv : ValidNames fvs) (cells : List Cell) :
+    serRowByName fvs db = .ok cells ↔
+      (∀ c ∈ db, ∃ f v, fieldFor fvs c.name = some (f, v) ∧ (v = none ∨ f.ty = c.ty)) ∧
+      (∀ p ∈ fvs, p.1.skip = false → p.1.col ∈ names db) ∧
+      cells = db.map (fun c => ((fieldFor fvs c.name).map (·.2)).getD none) := by
+  unfold serRowByName
+  simp only []
+  have hlen : (entries fvs).length = unv allTrue (entries fvs) := by
+    unfold unv
+    rw [List.filter_eq_self.mpr]
+    intro e he
+    simp [entries_unvisited fvs e he, allTrue]
+  rw [srLoop_eq, svLoop_closed true db (entries fvs) _ 0 hlen]
+  have hall : db.all (colOk true (fv (entries fvs))) = true ↔
+      ∀ c ∈ db, ∃ f v, fieldFor fvs c.name = some (f, v) ∧ (v = none ∨ f.ty = c.ty) := by
+    rw [List.all_eq_true]
+    apply forall₂_congr
+    intro c _
+    rw [colOk_iff]
+    unfold ColAccepted
+    cases fieldFor fvs c.name with
+    | none => simp
+    | some p =>
+      obtain ⟨f, v⟩ := p
+      constructor
+      · intro h; exact ⟨f, v, rfl, h⟩
+      · rintro ⟨f', v', h1, h2⟩; cases h1; exact h2
+  have hmiss : unv allTrue (markAll (db.map (·.name)) (entries fvs)) = 0 ↔
+      ∀ p ∈ fvs, p.1.skip = false → p.1.col ∈ names db := by
+    have h0 : unv allTrue (markAll (db.map (·.name)) (entries fvs)) = 0 ↔
+        ¬ (0 < unv allTrue (markAll (db.map (·.name)) (entries fvs))) := by omega
+    rw [h0, unv_pos_iff, any_markAll _ _ hv (entries_unvisited fvs) allTrue, Bool.not_eq_true, List.any_eq_false]
+    constructor
+    · intro h p hp hs
+      have := h ⟨p.1, p.2, false⟩ (mem_entries.mpr ⟨p, hp, hs, rfl⟩)
+      simpa [allTrue, names] using this
+    · intro h e he
+      obtain ⟨p, hp, hs, rfl⟩ := mem_entries.mp he
+      have := h p hp hs
+      simp only [names, List.mem_map] at this
+      simp [allTrue, this]
+  by_cases ha : db.all (colOk true (fv (entries fvs))) = true
+  · rw [if_pos ha]
+    simp only []
+    have hcells : emit (fv (entries fvs)) db 0 = db.map (fun c => ((fieldFor fvs c.name).map (·.2)).getD none) := by
+      rw [emit_forbid]
+      · apply List.map_congr_left
+        intro c hc
+        obtain ⟨f, v, hf, hor⟩ := hall.mp ha c hc
+        unfold specCell
+        rw [fv_entries, hf]
+        simp only [Option.map_some, Option.getD_some]
+        cases v with
+        | none => simp [serVal]
+        | some b =>
+          rcases hor with h | h
+          · cases h
+          · simp [serVal, h]
+      · intro c hc
+        obtain ⟨f, v, hf, _⟩ := hall.mp ha c hc
+        rw [fv_entries, hf]; rfl
+    unfold srCheckMissing
+    by_cases hz : unv allTrue (markAll (db.map (·.name)) (entries fvs)) = 0
+    · simp only [hz, beq_self_eq_true, if_true]
+      constructor
+      · intro h; cases h; exact ⟨hall.mp ha, hmiss.mp hz, hcells⟩
+      · rintro ⟨_, _, h3⟩; rw [h3, hcells]
+    · have hb : (unv allTrue (markAll (db.map (·.name)) (entries fvs)) == 0) = false := by simpa using hz
+      simp only [hb, Bool.false_eq_true, if_false]
+      constructor
+      · intro h
+        exfalso
+        by_cases hany : ((markAll (db.map (·.name)) (entries fvs)).any fun e => !e.visited) = true
+        · simp [hany] at h
+        · simp [hany] at h
+      · rintro ⟨_, h2, _⟩; exact absurd (hmiss.mpr h2) hz
+  · rw [if_neg ha]
+    simp only [reduceCtorEq, false_iff]
+    rintro ⟨h1, _, _⟩
+    exact ha (hall.mpr h1)
+
 /-! ### non-vacuity: concrete structs, orders and values -/
 
 section Examples
@@ -878,23 +1000,28 @@ private def dAB : Desc := ⟨.byName, false, false, [fA, fB]⟩
 private def dAll : Desc := ⟨.byName, false, false, [fA, fS, fB, fC]⟩
 private def fvAll : List (Field × Val) := [(fA, v1), (fS, v2), (fB, v2), (fC, some [104])]
 
+private def errOf {α : Type} : Except Err α → Option Err
+  | .ok _ => none
+  | .error e => some e
+
 /-- the F7 shape (`allow_missing` field declared before a required one, UDT lacks the required one): an error
 now, where the pre-fix generated code returned `Ok` and dropped `b` -/
-example : serValueByName dAB [(fA, v1), (fB, v2)] [⟨"a", .int⟩] = .error .svValueMissing := by decide +kernel
+example : errOf (serValueByName dAB [(fA, v1), (fB, v2)] [⟨"a", .int⟩]) = some .svValueMissing := by decide +kernel
 /-- hypotheses of the theorems are satisfiable: names valid, a permuted database order with an excess column
 in the middle, values at their columns' positions, trailing excess column not sent -/
-example : ValidNames fvAll := by decide +kernel
-example : serValueByName dAll fvAll [⟨"cc", .text⟩, ⟨"zz", .int⟩, ⟨"b", .int⟩, ⟨"a", .int⟩, ⟨"yy", .int⟩]
-    = .ok [some [104], none, v2, v1] := by decide +kernel
+example : ValidNames fvAll := by unfold ValidNames; decide +kernel
+example : okOpt (serValueByName dAll fvAll
+    [⟨"cc", .text⟩, ⟨"zz", .int⟩, ⟨"b", .int⟩, ⟨"a", .int⟩, ⟨"yy", .int⟩]) = some [some [104], none, v2, v1] := by
+  decide +kernel
 /-- round trip through a permuted order lacking the `allow_missing` column -/
-example : deserValue dAll [⟨"cc", .text⟩, ⟨"b", .int⟩] [some [104], v2]
-    = .ok [some [0, 0, 0, 0], some [0, 0, 0, 0], v2, some [104]] := by decide +kernel
-example : tcValueByName dAll [⟨"b", .int⟩, ⟨"b", .int⟩] = .error .dvDuplicatedField := by decide +kernel
+example : okOpt (deserValue dAll [⟨"cc", .text⟩, ⟨"b", .int⟩] [some [104], v2])
+    = some [some [0, 0, 0, 0], some [0, 0, 0, 0], v2, some [104]] := by decide +kernel
+example : errOf (tcValueByName dAll [⟨"b", .int⟩, ⟨"b", .int⟩]) = some .dvDuplicatedField := by decide +kernel
 /-- ordered flavor: declared order accepted, swapped order rejected -/
-example : svOrdered false false [(fB, v2), (fC, none)] [⟨"b", .int⟩, ⟨"cc", .text⟩] = .ok [v2, none] := by
+example : okOpt (svOrdered false false [(fB, v2), (fC, none)] [⟨"b", .int⟩, ⟨"cc", .text⟩]) = some [v2, none] := by
   decide +kernel
-example : svOrdered false false [(fB, v2), (fC, none)] [⟨"cc", .text⟩, ⟨"b", .int⟩] = .error .svFieldNameMismatch := by
-  decide +kernel
+example : errOf (svOrdered false false [(fB, v2), (fC, none)] [⟨"cc", .text⟩, ⟨"b", .int⟩])
+    = some .svFieldNameMismatch := by decide +kernel
 end Examples
 
 end ScyllaVerif.Props.C16
